@@ -34,25 +34,31 @@ def design_checks(ck, tier):
 
 
 def generate(ck, tier):
-    p1 = os.path.join(ck.dir, f"sched_b1_{tier}_{os.getpid()}.ndjson")
-    res = sc.tlc_mc(ck, "fifo_b1", mode="fifo", budget=1, fair=True, msgs="MsgsA12", init_a="{14}", init_b="{0}",
-                    sched_sink=p1, timeout=600)
-    vlib.tlc_ok(res, "fifo budget 1")
-    ck.add_tlc(res, "fifo/budget1 (single faults)")
-    singles = sc.schedules_from(p1)
-    p2 = os.path.join(ck.dir, f"sched_b2_{tier}_{os.getpid()}.ndjson")
-    res = sc.tlc_mc(ck, "fifo_b2", mode="fifo", budget=2, fair=False,
-                    msgs="MsgsA12" if tier == "thorough" else "MsgsA2", init_a="{14}", init_b="{0}",
-                    sched_sink=p2, timeout=2400 if tier == "thorough" else 600)
-    vlib.tlc_ok(res, "fifo budget 2")
-    ck.add_tlc(res, "fifo/budget2 (pairs)")
-    pairs = [s for s in sc.schedules_from(p2) if len(s) == 2]
-    global WINDOW_SCHEDS
-    WINDOW_SCHEDS = sc.gen_window_schedules(ck, tier)
-    gen_bursts(ck, tier)
-    global COLLISION_SCHEDS
-    COLLISION_SCHEDS = sc.gen_collision_schedules(ck, tier)
-    return singles, pairs, res["finished"]
+    def g_singles():
+        p1 = os.path.join(ck.dir, f"sched_b1_{tier}_{os.getpid()}.ndjson")
+        res = sc.tlc_mc(ck, "fifo_b1", mode="fifo", budget=1, fair=True, msgs="MsgsA12", init_a="{14}", init_b="{0}",
+                        sched_sink=p1, timeout=600)
+        vlib.tlc_ok(res, "fifo budget 1")
+        ck.add_tlc(res, "fifo/budget1 (single faults)")
+        return sc.schedules_from(p1)
+
+    def g_pairs():
+        p2 = os.path.join(ck.dir, f"sched_b2_{tier}_{os.getpid()}.ndjson")
+        res = sc.tlc_mc(ck, "fifo_b2", mode="fifo", budget=2, fair=False,
+                        msgs="MsgsA12" if tier == "thorough" else "MsgsA2", init_a="{14}", init_b="{0}",
+                        sched_sink=p2, timeout=2400 if tier == "thorough" else 600)
+        vlib.tlc_ok(res, "fifo budget 2")
+        ck.add_tlc(res, "fifo/budget2 (pairs)")
+        return [s for s in sc.schedules_from(p2) if len(s) == 2], res["finished"]
+
+    box = sc.in_parallel({"singles": g_singles, "pairs": g_pairs,
+                          "window": lambda: sc.gen_window_schedules(ck, tier),
+                          "bursts": lambda: gen_bursts(ck, tier),
+                          "coll": lambda: sc.gen_collision_schedules(ck, tier)})
+    global WINDOW_SCHEDS, COLLISION_SCHEDS
+    WINDOW_SCHEDS, COLLISION_SCHEDS = box["window"], box["coll"]
+    pairs, finished = box["pairs"]
+    return box["singles"], pairs, finished
 
 
 WINDOW_SCHEDS = []
